@@ -254,7 +254,14 @@ def load_known(prop_id):
         return []
     with open(path) as f:
         d = json.load(f)
-    return [e for e in d.get("findings", []) if e.get("property") == prop_id]
+    out = [e for e in d.get("findings", []) if e.get("property") == prop_id]
+    # per-property fragments (same format), merged into the main file by
+    # tools/merge_known.py before a release of /verif
+    frag = os.path.join(VERIF, "known_findings.d", prop_id + ".json")
+    if os.path.exists(frag):
+        with open(frag) as f:
+            out += [e for e in json.load(f).get("findings", []) if e.get("property") == prop_id]
+    return out
 
 
 def match_known(sig, known):
